@@ -54,7 +54,8 @@ class Fl:
         if lo is None and hi is None and mag is not None:
             lo, hi = -mag, mag
         self.lo, self.hi = lo, hi
-        self.x = None if (w or lo is None or hi is None) else x
+        # exact with no bounds = every finite value is attained (a freely chosen f64)
+        self.x = None if w else x
 
     @property
     def mag(self):
@@ -219,6 +220,10 @@ MONOTONE = {
 }
 
 
+# private-field types whose public constructors accept any value of the payload type
+CALLER_BUILDS = {"temporal_rs::primitive::FiniteF64"}
+
+
 def base_ty(ty):
     t = (ty or "").strip()
     while t.startswith("&"):
@@ -291,12 +296,20 @@ class Engine:
         if b == "bool":
             return AV(0, 1)
         if b in ("f64", "f32"):
-            return Fl(mode in ("T", "V"), why if mode in ("T", "V") else "")
+            return Fl(mode in ("T", "V"), why if mode in ("T", "V") else "", None, False,
+                      frozenset([why]) if (mode == "T" and why) else None)
         bt = base_ty(b)
         if is_foreign_data(b) and mode in ("T", "V"):
             # records delivered by the tzif / ixdtf parsers satisfy their format contracts (assumption of C03): their
             # fields are not treated as freely chosen by the caller
             mode, why = "U", ""
+        if mode == "T" and bt not in CALLER_BUILDS:
+            ad = self.adts.get(bt)
+            if ad is not None and ad.get("kind") == "struct" and ad.get("variants") \
+                    and any(not fd.get("pub") for fd in ad["variants"][0]["fields"]):
+                # a struct with private fields is built by the library's own constructors only: its contents are not
+                # freely chosen by the caller (unknown provenance: never reported, nothing assumed)
+                mode, why = "U", ""
         if bt in VALIDATED_OUTER and mode != "V":
             # values of the range-checked types are valid however they arrive (C02 R6: every producer validates)
             return Lazy(b, "V", "")
@@ -360,7 +373,7 @@ class Engine:
                 sub = self.top(fty, "T", val.why)
                 if isinstance(sub, (AV, Fl)) and sub.t:
                     sub.why = "%s.%s" % (val.why, fname)
-                    if isinstance(sub, AV):
+                    if isinstance(sub, (AV, Fl)):
                         sub.x = frozenset([sub.why])
                 return sub
             return self.top(fty)
@@ -958,7 +971,8 @@ class FnAnalysis:
                         val = AV(min(max(r[0], flo), r[1]), max(min(r[1], fhi), r[0]), getattr(v, "t", False), getattr(v, "why", ""),
                                  getattr(v, "w", False), getattr(v, "x", None))
                     else:
-                        val = AV(r[0], r[1], getattr(v, "t", False), getattr(v, "why", ""), getattr(v, "w", False))
+                        val = AV(r[0], r[1], getattr(v, "t", False), getattr(v, "why", ""), getattr(v, "w", False),
+                                 getattr(v, "x", None))
             elif ck == "IntToFloat":
                 if isinstance(v, AV):
                     val = Fl(v.t, v.why, None, v.w, v.x, lo=v.lo, hi=v.hi)
@@ -1081,7 +1095,10 @@ class FnAnalysis:
         elif isinstance(v, Fl) and v.mag is not None:
             lo, hi = v.lo, v.hi
         elif isinstance(v, Fl):
-            lo, hi = r[0] - 1, r[1] + 1
+            # a float nothing is known about yet: the saturating cast is monotone, and the code that validates the
+            # value (is_valid_duration) legitimately starts with it; not decided here
+            self.site_results[skey] = (1, None)
+            return
         else:
             return
         if lo >= r[0] and hi <= r[1]:
@@ -1126,8 +1143,14 @@ class FnAnalysis:
                 # unknown internal provenance at its most benign (smallest-magnitude) value
                 blamed = False
                 if res.t and isinstance(a, AV) and isinstance(b, AV):
-                    rb = self.arith(op, a if a.t else _benign(a), b if b.t else _benign(b), ty)
-                    blamed = isinstance(rb, AV) and (rb.lo < r[0] or rb.hi > r[1])
+                    # an operand of unknown provenance may be anything in its range: the report needs the overflow to be
+                    # reachable for EVERY value it might have (tried at both ends and at its smallest magnitude)
+                    blamed = True
+                    for ca in ([a] if a.t else _points(a)):
+                        for cb in ([b] if b.t else _points(b)):
+                            rb = self.arith(op, ca, cb, ty)
+                            if not (isinstance(rb, AV) and (rb.lo < r[0] or rb.hi > r[1])):
+                                blamed = False
                     # ... and their bounds must be attained: exact operands from independent sources
                     ex = all(v.x is not None for v in (a, b) if v.t)
                     if a.t and b.t and ex and not a.x.isdisjoint(b.x):
@@ -1601,6 +1624,18 @@ class FnAnalysis:
             return a0 if isinstance(a0, (Lazy, Rec, Fl)) and base_ty(dty) == base_ty(getattr(a0, "ty", dty)) else eng.top(dty, getattr(a0, "t", False), getattr(a0, "why", ""))
         if name == "new" and "RangeInclusive" in path and len(args) == 2:
             return Rec({"start": a0, "end": a1, "incl": AV(1, 1)})
+        if name == "abs" and isinstance(a0, AV) and r and path.startswith("core::num::"):
+            # i*::abs() inherits the caller's overflow checks: MIN.abs() panics with them and stays MIN without
+            self.cast_no = getattr(self, "cast_no", 0) + 1
+            skey = ("overflow:abs", getattr(self, "cur_bb", 0) * 100 + self.cast_no)
+            if a0.lo > r[0]:
+                self.site_results[skey] = (0, None)
+            elif a0.t and a0.x is not None:
+                self.site_results[skey] = (2, ("overflow:abs", "abs() of %s can overflow: the operand ranges over %s and may be %s::MIN; "
+                                              "caller-controlled through %s" % (dty, _fmt(a0), dty, a0.why), M.line_of(t.get("line")),
+                                              "overflow:abs"))
+            else:
+                self.site_results[skey] = (1, None)
         if name in ("abs", "unsigned_abs") and isinstance(a0, AV):
             m = max(abs(a0.lo), abs(a0.hi))
             lo = 0 if a0.lo <= 0 <= a0.hi else min(abs(a0.lo), abs(a0.hi))
@@ -1624,10 +1659,15 @@ class FnAnalysis:
         if name == "rem_euclid" and isinstance(a1, AV):
             m = max(abs(a1.lo), abs(a1.hi))
             if m > 0:
-                return AV(0, m - 1, getattr(a0, "t", False), getattr(a0, "why", ""), getattr(a0, "w", False))
+                full = isinstance(a0, AV) and a1.lo == a1.hi and (a0.hi - a0.lo) >= m
+                return AV(0, m - 1, getattr(a0, "t", False), getattr(a0, "why", ""), getattr(a0, "w", False),
+                          a0.x if full else None)
         if name == "div_euclid" and isinstance(a0, AV) and isinstance(a1, AV) and a1.lo > 0:
+            if a1.lo == a1.hi:
+                # floor division by a positive constant is monotone: exact bounds stay exact
+                return AV(a0.lo // a1.lo, a0.hi // a1.lo, a0.t, a0.why, a0.w, a0.x)
             return AV(-((-a0.lo) // a1.lo) - 1 if a0.lo < 0 else a0.lo // a1.hi, a0.hi // a1.lo if a0.hi >= 0 else -((-a0.hi) // a1.hi),
-                      a0.t or a1.t, a0.why if a0.t else a1.why)
+                      a0.t or a1.t, a0.why if a0.t else a1.why, a0.w or a1.w)
         if name == "clamp" and len(args) == 3 and all(isinstance(x, (AV, Fl)) for x in args) \
                 and None not in (getattr(a1, "lo", None), getattr(args[2], "hi", None)):
             lo_b, hi_b = a1.lo, args[2].hi
@@ -1688,9 +1728,13 @@ class FnAnalysis:
             mk = lambda: AV(0, (1 << 63) - 1, True, src, False, frozenset([src]))
             return Rec({("variant", "Ok"): Rec({0: mk()}), ("variant", "Err"): Rec({0: mk()})})
         if name in ("div_rem_euclid", "div_mod_floor") and isinstance(a0, AV) and isinstance(a1, AV) and a1.lo > 0:
-            q = self.arith("Div", a0, a1, None) if a0.lo >= 0 else AV(-((-a0.lo) // a1.lo) - 1, max(a0.hi, 0) // a1.lo, a0.t or a1.t,
-                                                                         a0.why if a0.t else a1.why, a0.w or a1.w)
-            rem = AV(0, a1.hi - 1, a0.t or a1.t, a0.why if a0.t else a1.why, a0.w or a1.w)
+            if a1.lo == a1.hi:
+                q = AV(a0.lo // a1.lo, a0.hi // a1.lo, a0.t, a0.why, a0.w, a0.x)
+            else:
+                q = self.arith("Div", a0, a1, None) if a0.lo >= 0 else AV(-((-a0.lo) // a1.lo) - 1, max(a0.hi, 0) // a1.lo, a0.t or a1.t,
+                                                                             a0.why if a0.t else a1.why, a0.w or a1.w)
+            rem = AV(0, a1.hi - 1, a0.t or a1.t, a0.why if a0.t else a1.why, a0.w or a1.w,
+                     a0.x if (a1.lo == a1.hi and a0.hi - a0.lo >= a1.lo) else None)
             if a0.lo >= 0 and a0.hi < a1.lo:
                 rem = AV(a0.lo, a0.hi, a0.t, a0.why, a0.w, a0.x)
             return Rec({0: q, 1: rem})
@@ -1811,6 +1855,22 @@ class FnAnalysis:
             return a0 if not (isinstance(a0, AV) and r and (a0.lo < r[0] or a0.hi > r[1])) else AV(r[0], r[1], a0.t, a0.why, a0.w, a0.x)
         if name in ("len",):
             return AV(0, (1 << 63) - 1)
+        if name in ("saturating_add", "saturating_sub", "saturating_mul", "checked_add", "checked_sub", "checked_mul") \
+                and isinstance(a0, AV) and isinstance(a1, AV) and path.startswith("core::num::"):
+            base = {"add": "Add", "sub": "Sub", "mul": "Mul"}[name.rsplit("_", 1)[1]]
+            inner_m = re.match(r"core::option::Option<(\w+)>", dty or "")
+            rr = ty_range(inner_m.group(1)) if inner_m else r
+            raw = self.arith(base, a0, a1, None)
+            if rr and isinstance(raw, AV):
+                # saturation / the None case cut the exact result at the type's ends, which are then attained
+                v = AV(max(raw.lo, rr[0]) if raw.lo <= rr[1] else rr[0], min(raw.hi, rr[1]) if raw.hi >= rr[0] else rr[1],
+                       raw.t, raw.why, raw.w, raw.x)
+                if inner_m:
+                    out = {("variant", "Some"): Rec({0: v})}
+                    if raw.lo < rr[0] or raw.hi > rr[1]:
+                        out[("variant", "None")] = Rec({})
+                    return Rec(out)
+                return v
         if name in ("checked_add", "checked_sub", "checked_mul", "checked_div", "checked_neg", "checked_abs",
                     "saturating_add", "saturating_sub", "saturating_mul", "wrapping_add", "wrapping_sub", "wrapping_mul"):
             # checked/saturating/wrapping arithmetic cannot panic; result within the type
@@ -1887,6 +1947,12 @@ def _why(*vs):
         elif getattr(v, "t", False):
             return v.why
     return ""
+
+
+def _points(v):
+    pts = {v.lo, v.hi}
+    pts.add(0 if v.lo <= 0 <= v.hi else (v.lo if abs(v.lo) < abs(v.hi) else v.hi))
+    return [AV(p, p) for p in sorted(pts)]
 
 
 def _benign(v):
